@@ -72,6 +72,18 @@ def run_kinds(ctx, res, prop, fns, floor_subscripts, floor_resolved, rule_prefix
                 res.info.append({"scoped_out": fq, "reason": POSITIONAL_BY_CONTRACT[fq], "site": v.text})
                 continue
             res.add(mk_finding(prop, v.rule, fn, v.node, f"{fn.qualname}: {v.text} (container {fmt(v.container)}, index {fmt(v.index)}); the result depends on how nodes/edges are labelled or ordered", role=v.rule))
+        for call, i in r.perm_pairs:
+            key = (fq, "K-PERM", call.lineno, call.col_offset)
+            if key in seen:
+                continue
+            seen.add(key)
+            from .c09_labels import order_tag
+            from .common import unparse
+
+            others = [a for j, a in enumerate(call.args) if j != i]
+            if all(order_tag(fn, a) == "view" for a in others):
+                continue
+            res.add(mk_finding(prop, "K-PERM", fn, call, f"{fn.qualname}: `{unparse(call, 70)}` pairs the view of a network whose labels are only known to be a permutation of 0..n-1 (guard `set(nodes) == set(range(n))`, not a relabelling) with a sequence addressed by position; the view lists the labels in insertion order, so element i of the sequence - the value of label i - is attached to the i-th inserted node; the result changes with the insertion order of the nodes", role="K-PERM"))
         for node, what in r.order_uses[:3]:
             res.info.append({"K3": f"{fq}:{getattr(node, 'lineno', 0)}", "note": what + " (label-order dependent for relabellings that are not order-isomorphic)"})
     res.inst("K1/K2/K5", f"{totals.subscripts} subscripts examined in {len(in_scope)} functions ({totals.both_resolved} with container and index kinds resolved)", True, sample={"rule": "K1/K2/K5", "subscripts": totals.subscripts, "both_resolved": totals.both_resolved, "container_only": totals.container_only, "index_only": totals.index_only, "neither": totals.neither})
